@@ -60,6 +60,9 @@ func behaviourClass(steps []step, verdictKey string) string {
 			nver++
 		}
 	}
+	if v, ok := last["deletes"].([]interface{}); ok && len(v) > 0 {
+		feat["refdel"] = true
+	}
 	if v, ok := last["expectDeleted"].([]interface{}); ok && len(v) > 0 {
 		feat["deletes"] = true
 	}
@@ -202,7 +205,11 @@ func replayPush(c *core.Ctx, lfsBin string, b *behaviour, idx int) (viol *core.V
 		var args []string
 		switch s.str("mode") {
 		case "git-push":
-			args = append([]string{"push", "origin"}, refs...)
+			args = []string{"push", "origin"}
+			for _, d := range toStrings(s["deletes"]) {
+				args = append(args, ":"+d)
+			}
+			args = append(args, refs...)
 		case "lfs-push":
 			args = append([]string{"lfs", "push", "origin"}, refs...)
 		case "lfs-push-all":
